@@ -6,6 +6,7 @@ CONSTANTS
   MsgTypes = {0, 1, 2, 3, 4}
   MaxPeer = 2
   MaxApp = 1
+  PeerMode = "adversarial"
   Variant = "noRecvToken"
 SPECIFICATION Spec
 CHECK_DEADLOCK FALSE
